@@ -140,11 +140,12 @@ func main() {
 	}
 
 	n := r.N(60, 1500)
+	nFocus := r.N(16, 400)
 	if b := os.Getenv("C08_BATCH"); b != "" {
 		var lo, hi int
 		fmt.Sscanf(b, "%d:%d", &lo, &hi)
 		for i := lo; i < hi; i++ {
-			run.scenario(i)
+			run.scenario(slotIndex(i, n))
 		}
 		r.Finish(rule)
 		return
@@ -168,8 +169,8 @@ func main() {
 	}
 	type batch struct{ lo, hi int }
 	var batches []batch
-	for lo := 0; lo < n; lo += per {
-		batches = append(batches, batch{lo, min(lo+per, n)})
+	for lo := 0; lo < n+nFocus; lo += per {
+		batches = append(batches, batch{lo, min(lo+per, n+nFocus)})
 	}
 	sem := make(chan struct{}, workers)
 	var wg sync.WaitGroup
@@ -211,6 +212,29 @@ func main() {
 	r.Require("leases_inspected", int64(n*10))
 	r.Require("prefetch_refreshes_observed", 1)
 	r.Require("advance_steps", int64(n*3))
+	// focus scenarios: DS RRsets nobody can use / mixed ones, DS TTL != NS TTL
+	nf := int64(nFocus)
+	r.Require("focus_scenarios_judged", nf*3/4)
+	r.Require("judged_victim_ds/unusable", nf/8)
+	r.Require("judged_victim_ds/mixed", nf/8)
+	r.Require("victim_referrals_with_unusable_only_ds", nf/4)
+	r.Require("victim_referrals_with_unusable_only_ds_shorter_than_ns", nf/8)
+	r.Require("victim_referrals_with_mixed_ds", nf/4)
+	r.Require("unusable_ds_victim_served_insecure_before_change", nf/8)
+	r.Require("judged_dnssec_off", nf/8)
+	// cross-zone aliases, before the change (what the old child said reached
+	// the client through the alias) and after the bound
+	for _, shape := range aliasShapes[:5] {
+		r.Require("alias_after_bound/"+shape, nf)
+	}
+	r.Require("alias_after_bound/deep-positive", nf/4)
+	r.Require("alias_before_change/positive/old-answer", nf/2)
+	r.Require("alias_before_change/deep-positive/old-answer", nf/8)
+	r.Require("alias_before_change/nxdomain-soa/nxdomain-with-soa", nf/4)
+	r.Require("alias_before_change/nxdomain-bare/nxdomain-bare", nf/4)
+	r.Require("alias_before_change/nodata-soa/nodata-with-soa", nf/4)
+	r.Require("alias_before_change/nodata-bare/nodata-bare", nf/4)
+	r.Require("alias_after_bound_repoint_new_answer", nf)
 	r.Finish(rule)
 }
 
@@ -586,7 +610,20 @@ func (w *world) hotRound(rng *rand.Rand) []probe {
 // ---- one scenario -----------------------------------------------------------
 
 func (run *runner) scenario(index int) {
+	if index >= focusBase {
+		run.runScenario(genFocus(run.r.RandN("scenario", index), run.r.Seed, index))
+		return
+	}
 	run.runScenario(genScenario(run.r.RandN("scenario", index), run.r.Seed, index))
+}
+
+// slotIndex maps the s-th scenario of a run with n ordinary scenarios to its
+// index (the focus scenarios follow the ordinary ones).
+func slotIndex(s, n int) int {
+	if s >= n {
+		return focusBase + (s - n)
+	}
+	return s
 }
 
 // runScenario executes one scenario. Every random decision taken while it
@@ -595,12 +632,17 @@ func (run *runner) runScenario(sc *Scenario) {
 	r := run.r
 	index := sc.Index
 	rng := r.RandN("run", index)
+	arng := r.RandN("alias", index) // alias probes draw from a stream of their own
 	w := buildWorld(sc)
 	defer w.u.Close()
 	rs, err := w.u.NewResolverStack(func(c *config.Config) {
 		c.QnameMinLevel = sc.QMin
 		c.IPv6Access = sc.IPv6
 		c.Timeout.Duration = 4 * time.Second
+		if sc.DNSSECOff {
+			c.DNSSEC = "off"
+			c.RootKeys = nil
+		}
 	})
 	if err != nil {
 		r.Inconclusive("stack: " + err.Error())
@@ -667,6 +709,21 @@ func (run *runner) runScenario(sc *Scenario) {
 			return
 		}
 	}
+	// cross-zone aliases: asked while the original tree is in place …
+	aliasRound := func(phase string) bool {
+		for _, p := range w.aliasProbes(arng) {
+			res, ok := step(p)
+			if !ok {
+				return false
+			}
+			run.aliasSeen(w, phase, p, res)
+		}
+		return true
+	}
+	if !aliasRound("before_change") {
+		return
+	}
+	run.dsSeen(w)
 	bv := func() time.Duration { return w.bounds(true).lease[v] }
 	if bv() < 0 {
 		r.Count("scenarios_without_victim_referral", 1)
@@ -680,7 +737,7 @@ func (run *runner) runScenario(sc *Scenario) {
 				return false
 			}
 		}
-		return true
+		return aliasRound("before_change")
 	}
 	remaining := func() time.Duration { return bv() - w.vnow() }
 	frac := func(lo, hi float64) float64 { return lo + rng.Float64()*(hi-lo) }
@@ -758,7 +815,7 @@ func (run *runner) runScenario(sc *Scenario) {
 				return
 			}
 		}
-		for _, p := range w.hotRound(rng) {
+		for _, p := range append(w.hotRound(rng), w.aliasProbes(arng)...) {
 			res, ok := step(p)
 			if !ok {
 				return
@@ -769,7 +826,11 @@ func (run *runner) runScenario(sc *Scenario) {
 
 	// ---- past the bound -----------------------------------------------------
 	extras := []time.Duration{50 * time.Millisecond, time.Second, 7 * time.Second, time.Duration(sc.HotTTL) * time.Second, time.Hour, 48 * time.Hour}
-	target := bound + graceAfter + extras[rng.IntN(len(extras))]
+	extra := extras[rng.IntN(len(extras))]
+	if sc.SoonAfter {
+		extra = extras[arng.IntN(3)]
+	}
+	target := bound + graceAfter + extra
 	if !run.advance(w, target-w.vnow()) {
 		return
 	}
@@ -840,6 +901,9 @@ func (run *runner) runScenario(sc *Scenario) {
 				return false
 			}
 			after(p, res)
+			if p.Kind == "alias" && res.vStart > bound+graceAfter {
+				run.aliasSeen(w, "after_bound", p, res)
+			}
 		}
 		return true
 	}
@@ -848,12 +912,13 @@ func (run *runner) runScenario(sc *Scenario) {
 	if d > v {
 		first = append(first, w.core(d, rng)...)
 	}
+	first = append(first, w.aliasProbes(arng)...)
 	if !afterRound(first) {
 		return
 	}
 	for i := 0; i < sc.Rounds; i++ {
 		jump := []time.Duration{time.Duration(float64(sc.HotTTL) * 0.93 * float64(time.Second)), 3 * time.Second, time.Duration(sc.LongTTL) * time.Second, 13 * time.Hour}[rng.IntN(4)]
-		if !run.advance(w, jump) || !afterRound(w.hotRound(rng)) {
+		if !run.advance(w, jump) || !afterRound(append(w.hotRound(rng), w.aliasProbes(arng)...)) {
 			return
 		}
 	}
@@ -897,6 +962,16 @@ func (run *runner) runScenario(sc *Scenario) {
 		}
 		r.Count(fmt.Sprintf("judged_depth/%d", d), 1)
 		r.Count(fmt.Sprintf("judged_victim_level/%d", v), 1)
+		if sc.Focus != "" {
+			r.Count("focus_scenarios_judged", 1)
+			r.Count("judged_focus/"+sc.Focus, 1)
+		}
+		if k := sc.Levels[v-1].DSKind; k != "" {
+			r.Count("judged_victim_ds/"+k, 1)
+		}
+		if sc.DNSSECOff {
+			r.Count("judged_dnssec_off", 1)
+		}
 		r.Distinct(sc.Shape())
 		r.Sample(map[string]any{"scenario": sc.String(), "shape": sc.Shape(), "bound_virtual": bound.String(), "judged_after_bound": judged, "referrals_logged": nref})
 	}
@@ -911,4 +986,105 @@ func grant0(sc *Scenario) time.Duration {
 		}
 	}
 	return time.Duration(l) * time.Second
+}
+
+// ---- focus scenarios: aliases and DS usability --------------------------------
+
+// aliasProbes asks every alias of the sibling zone (none outside focus scenarios).
+func (w *world) aliasProbes(rng *rand.Rand) []probe {
+	var ps []probe
+	for _, a := range w.aliases {
+		ps = append(ps, probe{Name: a.Name, Type: dns.TypeA, DO: rng.IntN(3) != 0, Kind: "alias", Level: a.Level})
+	}
+	return ps
+}
+
+func (w *world) aliasOf(name string) *aliasInfo {
+	for i := range w.aliases {
+		if w.aliases[i].Name == name {
+			return &w.aliases[i]
+		}
+	}
+	return nil
+}
+
+// aliasSeen records (evidence only, no verdict) what reached the client through
+// an alias: before the parent changes anything this shows that the old child's
+// answer — positive, denial with SOA, bare denial — really was relayed and
+// cached under the alias; after the bound the verdict is after()'s.
+func (run *runner) aliasSeen(w *world, phase string, p probe, res result) {
+	a := w.aliasOf(p.Name)
+	if a == nil || res.reply == nil {
+		return
+	}
+	r := run.r
+	if phase == "after_bound" {
+		r.Count("alias_after_bound/"+a.Shape, 1)
+		if w.sc.Mode == "repoint" && w.newTruth(p, res.reply) == "new-answer" {
+			r.Count("alias_after_bound_repoint_new_answer", 1)
+		}
+		return
+	}
+	if w.changed {
+		return
+	}
+	m := res.reply
+	soa := false
+	for _, rr := range m.Ns {
+		if _, ok := rr.(*dns.SOA); ok {
+			soa = true
+		}
+	}
+	kind, _ := w.oldData(m, false)
+	out := "other"
+	switch {
+	case m.Rcode == dns.RcodeServerFailure:
+		out = "servfail"
+	case m.Rcode == dns.RcodeSuccess && kind == "marker":
+		out = "old-answer"
+	case m.Rcode == dns.RcodeNameError && soa:
+		out = "nxdomain-with-soa"
+	case m.Rcode == dns.RcodeNameError:
+		out = "nxdomain-bare"
+	case m.Rcode == dns.RcodeSuccess && len(stripSigs(m.Answer)) == 1 && soa:
+		out = "nodata-with-soa"
+	case m.Rcode == dns.RcodeSuccess && len(stripSigs(m.Answer)) == 1:
+		out = "nodata-bare"
+	}
+	r.Count("alias_"+phase+"/"+a.Shape+"/"+out, 1)
+}
+
+// dsSeen counts (evidence only) the victim referrals that carried a DS RRset
+// nobody can use, or a mixed one, as they left the parent's servers, and
+// whether the victim below an unusable-only set was served as insecure data.
+func (run *runner) dsSeen(w *world) {
+	sc := w.sc
+	l := sc.Levels[sc.Victim-1]
+	if l.DSKind == "" {
+		return
+	}
+	w.mu.Lock()
+	for _, x := range w.ref {
+		if x.Level != sc.Victim || x.DSOnly || !x.HasDS {
+			continue
+		}
+		if l.DSKind == "unusable" {
+			run.r.Count("victim_referrals_with_unusable_only_ds", 1)
+			if x.DSTTL < x.NSTTL {
+				run.r.Count("victim_referrals_with_unusable_only_ds_shorter_than_ns", 1)
+			}
+		} else {
+			run.r.Count("victim_referrals_with_mixed_ds", 1)
+		}
+	}
+	w.mu.Unlock()
+	if l.DSKind == "unusable" {
+		// the warm-up asked www.<victim> A: answered with the old child's data
+		res, ok := run.ask(w, probe{Name: "www." + w.victimApex, Type: dns.TypeA, DO: true, Kind: "www", Level: sc.Victim})
+		if ok && res.reply != nil && res.reply.Rcode == dns.RcodeSuccess && !res.reply.AuthenticatedData {
+			if kind, _ := w.oldData(res.reply, false); kind != "" {
+				run.r.Count("unusable_ds_victim_served_insecure_before_change", 1)
+			}
+		}
+	}
 }
